@@ -1,6 +1,7 @@
 import OpdaProofs.Audit
 import OpdaProofs.Sample
 import OpdaProofs.ExtInst
+import OpdaProofs.NoisyLaw
 /-!
 # C13 — `sample()` draws from the distribution its `cdf` describes
 
@@ -98,6 +99,20 @@ theorem noisy_sample_law {Ω : Type} [MeasurableSpace Ω] (P : Measure Ω) [IsPr
       = (P.map (fun ω => noisyQuadPart d (U ω))) ∗ ProbabilityTheory.gaussianReal 0 (.mk (o ^ 2) (sq_nonneg o)) :=
   noisy_law P U Z hU hZ hind hZlaw d o
 
+/-- **T2, distribution function**: `U` uniform on `[0,1)` (`uniform01 = volume.restrict (Ico 0 1)`), `Z` standard normal,
+independent, `a < b`, `c ≥ 1`, `o > 0` ⇒ `P[sample ≤ y]` is the C06 Spec at `y`: `H((y−a)/(b−a))` (convex) resp.
+`1 − H((b−y)/(b−a))` (concave), `H(t) = ∫₀¹ Φ((t−x)/s) d(x^{c/2})`, `s = o/(b−a)` — the distribution function of the
+convolution of `noisy_sample_law` (`Opda.Props.C06.spec_is_law_of_sum`; independence + Fubini + the substitution
+`x = u^{2/c}`, `OpdaProofs/NoisyLaw.lean`) -/
+theorem noisy_sample_distribution_function {Ω : Type} [MeasurableSpace Ω] (P : Measure Ω) [IsProbabilityMeasure P]
+    (U Z : Ω → ℝ) (hU : Measurable U) (hZ : Measurable Z) (hind : ProbabilityTheory.IndepFun U Z P)
+    (hUlaw : P.map U = volume.restrict (Ico 0 1)) (hZlaw : P.map Z = ProbabilityTheory.gaussianReal 0 1)
+    (d : Opda.Quad.Params ℝ) (o : ℝ) (hab : d.a < d.b) (hc : 1 ≤ d.c) (ho : 0 < o) (y : ℝ) :
+    (P {ω | noisySample d o (U ω) (Z ω) ≤ y}).toReal
+      = (if d.convex then Opda.Noisy.mixture ((d.c : ℝ) / 2) (o / (d.b - d.a)) ((y - d.a) / (d.b - d.a))
+         else 1 - Opda.Noisy.mixture ((d.c : ℝ) / 2) (o / (d.b - d.a)) ((d.b - y) / (d.b - d.a))) :=
+  Opda.NoisyLaw.noisy_sample_cdf P U Z hU hZ hind hUlaw hZlaw d o hab hc ho y
+
 /-- the quadratic part of a noisy draw is the noiseless draw (so its law is `quadratic_sample_law`) -/
 theorem noisy_quadratic_part (d : Opda.Quad.Params ℝ) (u : ℝ) (h0 : 0 ≤ u) (h1 : u ≤ 1) :
     noisyQuadPart d u = quadSample d u := noisyQuadPart_eq d u h0 h1
@@ -105,6 +120,12 @@ theorem noisy_quadratic_part (d : Opda.Quad.Params ℝ) (u : ℝ) (h0 : 0 ≤ u)
 /-! ### non-vacuity -/
 
 example : ∃ d : Opda.Quad.Params ℝ, d.a < d.b ∧ 0 < d.c := ⟨⟨0, 1, 3, true⟩, by norm_num, by norm_num⟩
+
+/-- the hypotheses of `noisy_sample_distribution_function` are satisfiable: the coordinates of `ℝ × ℝ` under
+`uniform[0,1) ⊗ N(0,1)` -/
+example : ∃ (P : Measure (ℝ × ℝ)) (_ : IsProbabilityMeasure P) (U Z : ℝ × ℝ → ℝ), Measurable U ∧ Measurable Z
+    ∧ ProbabilityTheory.IndepFun U Z P ∧ P.map U = volume.restrict (Ico 0 1)
+    ∧ P.map Z = ProbabilityTheory.gaussianReal 0 1 := Opda.NoisyLaw.exists_uniform_normal_pair
 
 example : ∃ obs : List (ℝ × ℝ), NonNeg obs ∧ 0 < total obs :=
   ⟨[(1, 1/2), (0, 1/2)], by intro p hp; simp at hp; rcases hp with rfl | rfl <;> norm_num, by norm_num [total]⟩
